@@ -2,6 +2,8 @@
 
 package dicescript
 
+import "golang.org/x/exp/rand"
+
 func init() {
 	vHarnesses["VH_C04_vm"] = VH_C04_vm
 }
@@ -203,4 +205,25 @@ func VH_C04_vm() {
 			}
 		}
 	}
+}
+
+func init() {
+	vHarnesses["VH_C04_realroll"] = VH_C04_realroll
+}
+
+//vh:prop=C04 tiers=quick,thorough unwind=6 solver=z3-new/int portfolio=cvc5/int,z3/bv,z3-new/bv budget_s=600 bounds="RollCommon with one or two dice through the REAL sampler (no summary for Roll): side count a 64-bit symbol over [1, 2^60], every generator output a fresh symbol, any number of rejected draws (inductive loop cut): each die shown and the total lie in the face range - the legality of a die does not rest on Roll's contract alone but is re-established here for every side count, including those at the 32-bit boundary"
+func VH_C04_realroll() {
+	src := &rand.PCGSource{}
+	times := 1 + vChoice("times", 2)
+	sides := vInt64("sides")
+	vAssume(sides >= 1)
+	vAssume(sides <= 1<<60) // (two dice: the total stays below 2^63)
+	num, text := RollCommon(src, IntType(times), IntType(sides), nil, nil, 0, 0, 0, 0)
+	vReach("rolled")
+	vAssert(vAnd(int64(num) >= int64(times), int64(num) <= int64(times)*sides), "total-within-the-face-range")
+	shown := vStrInts(text)
+	for _, d := range shown {
+		vAssert(vAnd(d >= 1, d <= sides), "die-shown-lies-in-its-face-range")
+	}
+	vAssert(vDrawsFrom(src) == vDrawCount(), "draws-from-given-source")
 }
